@@ -64,6 +64,8 @@ func c16(c *Ctx) {
 	conds["gzip-never-built"] = neverAllocated(c, "objects.GzipPacked")
 	conds["mode-is-intermediate"] = modeIsIntermediate(c)
 	c.nilTypes("R16.N", fns, 30)
+	r.Rule("R16.T", "no read loop of the receive region can spin: a loop around a Read leaves when the reader keeps returning (0, a non-sentinel error) (= C15 R15.T; a gzip stream with a damaged trailer would otherwise stall the receive goroutine for good)", 1)
+	c.readerLoops("R16.T", fns)
 	n, d, a := c.runCensus("R16.P", fns, map[string]bool{"panic": true, "helper": true, "assert": true, "errpath": true, "make": true}, conds, "C15/R15.C", "C17/R17.P", "C04/R04.P", "C06/R06.P")
 	r.Extra["census_functions"] = len(fns)
 	r.Extra["census_sites"] = n
